@@ -5,7 +5,9 @@
 
   The gates produced are X / CNOT / TOFFOLI (and, with `use_toffolis=False`, the 7-gate
   RY/CNOT block returned by `TOFFOLI.congruent(False)`, kept here as the single gate `rtof`:
-  a Toffoli that additionally reverses the sign of |c0 c1 t⟩ = |1 0 1⟩).  All of them map
+  a Toffoli that additionally reverses the sign of |c0 c1 t⟩ = |1 0 0⟩, c0 < c1 the sorted
+  controls).  qibo keeps the controls of every gate sorted (`Gate.control_qubits`), so the
+  model sorts wherever the Python code builds a gate.  All of them map
   computational-basis states to (signed) computational-basis states, so their meaning is a
   function on bit assignments `Lab = Nat → Bool` together with a sign bit.
 
@@ -33,9 +35,10 @@ def CGate.apply : CGate → Lab → Lab
   | .rtof c0 c1 t, b => b.set t (xor (b t) (b c0 && b c1))
 
 /-- does the gate reverse the sign of basis state `b`?  Only the congruent Toffoli does:
-    the amplitude of |c0 c1 t⟩ = |1 0 1⟩ is multiplied by −1. -/
+    the amplitude of |c0 c1 t⟩ = |1 0 0⟩ is multiplied by −1 (kernel-checked against the real
+    `TOFFOLI.congruent(False)` in the generated obligations `C08_congruent_*`). -/
 def CGate.sign : CGate → Lab → Bool
-  | .rtof c0 c1 t, b => b c0 && !b c1 && b t
+  | .rtof c0 c1 t, b => b c0 && !b c1 && !b t
   | _, _ => false
 
 /-- run a gate list on a bit assignment (first element acts first). -/
@@ -45,16 +48,26 @@ def runC (gs : List CGate) (b : Lab) : Lab := gs.foldl (fun s g => g.apply s) b
 def runS (gs : List CGate) (sb : Bool × Lab) : Bool × Lab :=
   gs.foldl (fun s g => (xor s.1 (g.sign s.2), g.apply s.2)) sb
 
+/-- `Gate.control_qubits`: the controls of a gate object are kept sorted. -/
+def insSorted (x : Nat) : List Nat → List Nat
+  | [] => [x]
+  | y :: ys => if x ≤ y then x :: y :: ys else y :: insSorted x ys
+
+def srt (l : List Nat) : List Nat := l.foldr insSorted []
+
+/-- `TOFFOLI(c0, c1, t)` as the gate object reports it (sorted controls). -/
+def tof (c0 c1 t : Nat) : CGate := .toffoli (min c0 c1) (max c0 c1) t
+
 /-- `X(t).controlled_by(*cs)` for fewer than three controls: X, CNOT or TOFFOLI. -/
 def mcxSmall (cs : List Nat) (t : Nat) : CGate :=
   match cs with
   | [] => .x t
   | [c] => .cnot c t
-  | c0 :: c1 :: _ => .toffoli c0 c1 t
+  | c0 :: c1 :: _ => tof c0 c1 t
 
-/-- `TOFFOLI(c0,c1,t).congruent(use_toffolis)`. -/
+/-- `TOFFOLI(c0,c1,t).congruent(use_toffolis)` (the method reads the sorted controls). -/
 def congruent (ut : Bool) (c0 c1 t : Nat) : CGate :=
-  if ut then .toffoli c0 c1 t else .rtof c0 c1 t
+  if ut then tof c0 c1 t else .rtof (min c0 c1) (max c0 c1) t
 
 /-- outcome of `X.decompose`. -/
 inductive XRes where
@@ -71,18 +84,22 @@ def ladderHalf (ut : Bool) (cs : List Nat) (t : Nat) (fs : List Nat) : List CGat
   let gates1 := (List.range (m - 3)).map fun i =>
     congruent ut (cs.getD (m - 2 - i) 0) (fs.getD (m - 4 - i) 0) (fs.getD (m - 3 - i) 0)
   let gates2 := congruent ut (cs.getD 0 0) (cs.getD 1 0) (fs.getD 0 0)
-  let first := CGate.toffoli (cs.getD (m - 1) 0) (fs.getD (m - 3) 0) t
+  let first := tof (cs.getD (m - 1) 0) (fs.getD (m - 3) 0) t
   [first] ++ gates1 ++ [gates2] ++ gates1.reverse
 
 /-- transliteration of `X.decompose(*free, use_toffolis=ut)` for the gate
-    `X(t).controlled_by(*cs)`; the recursion of the Python code is bounded by `fuel`
+    `X(t).controlled_by(*cs)` (`cs` = the gate's `control_qubits`; the gates `x1`, `x2` built
+    in the splitting branch sort their controls again); the recursion of the Python code is bounded by `fuel`
     (`cs.length + 1` always suffices, see `T08_mcx_total`). -/
 def xDecompose (ut : Bool) : Nat → List Nat → Nat → List Nat → XRes
   | 0, _, _, _ => .outOfFuel
   | fuel + 1, cs, t, fs =>
-    if fs.any (fun q => q == t || cs.contains q) then .valueError
+    let m := cs.length
+    -- one or two controls: the object is a CNOT / TOFFOLI, whose `decompose` returns the gate
+    if m = 1 ∨ m = 2 then .ok [mcxSmall cs t]
+    -- `X.decompose`: free qubits must not coincide with the gate's qubits
+    else if fs.any (fun q => q == t || cs.contains q) then .valueError
     else
-      let m := cs.length
       if m < 3 then .ok [mcxSmall cs t]
       else
         let n := m + 1 + fs.length
@@ -93,10 +110,10 @@ def xDecompose (ut : Bool) : Nat → List Nat → Nat → List Nat → XRes
           let m1 := n / 2
           let f0 := fs.getD 0 0
           let free1 := cs.drop m1 ++ [t] ++ fs.drop 1
-          match xDecompose ut fuel (cs.take m1) f0 free1 with
+          match xDecompose ut fuel (srt (cs.take m1)) f0 free1 with
           | .ok part1 =>
             let free2 := cs.take m1 ++ fs.drop 1
-            let controls2 := cs.drop m1 ++ [f0]
+            let controls2 := srt (cs.drop m1 ++ [f0])
             match xDecompose ut fuel controls2 t free2 with
             | .ok part2 =>
               let d := part1 ++ part2
